@@ -149,8 +149,10 @@ func transactOnConn(ctx context.Context, conn *sql.DB, b beginnable, fn func(con
 		return
 	}
 
+	// panic(nil) 时 recover() 返回 nil（go.mod 声明的语言版本早于 1.21），不能只靠 recover 的返回值判断是否发生了 panic
+	finished := false
 	defer func() {
-		if p := recover(); p != nil {
+		if p := recover(); p != nil || !finished {
 			if e := tx.Rollback(); e != nil {
 				err = fmt.Errorf("事务函数 panic：%#v，回滚也失败了：%w", p, e)
 			} else {
@@ -165,5 +167,8 @@ func transactOnConn(ctx context.Context, conn *sql.DB, b beginnable, fn func(con
 		}
 	}()
 
-	return fn(ctx, tx)
+	err = fn(ctx, tx)
+	finished = true
+
+	return
 }
